@@ -1357,6 +1357,12 @@ func Run(r *common.Run) error {
 		}
 	}
 
+	// ---- several sessions binding on one feature value ----
+	genConcBind(r)
+	if r.Race() {
+		return nil
+	}
+
 	// ---- hdr: every special address x role x framing, languages ----
 	for _, ws := range []bool{false, true} {
 		for _, recv := range []bool{false, true} {
@@ -1575,6 +1581,8 @@ func replayLine(r *common.Run, l string) error {
 			runHdr(r, hdrCase{recv: true, ws: ws, s2s: s2s, loc: from, orig: to, lang: lang}, "replay")
 		}
 		return nil
+	case f[0] == "concb" && len(f) >= 3:
+		return replayConcBind(r, f)
 	case f[0] == "tag" && len(f) == 2:
 		runTag(r, un(f[1]), "replay")
 		return nil
@@ -1631,4 +1639,3 @@ func replayLine(r *common.Run, l string) error {
 	}
 	return fmt.Errorf("cannot replay line %q", l)
 }
-
